@@ -287,7 +287,6 @@ Definition load_proc_desc (d : desc) : load_res :=
               | inl g2 =>
                   match filter (fun p => has_node g2 p) orig_in with      (* chk_non_empty *)
                   | [] => LoadErr EEmptyProc
-                  | EmptyString :: _ => LoadErr EEmptyProc                 (* truthiness of the name (finding O3) *)
                   | _ =>
                       match do_cap_checks g2 at1 (dfs_postorder g2) (out_ports_of g2) (cap_units g2 at1) with
                       | Some e => LoadErr e
